@@ -439,6 +439,8 @@ def obs_cell(x) -> str:
         return "B1" if x else "B0"
     if isinstance(x, int):
         return f"I{x}"
+    if isinstance(x, float):
+        return f"F{x!r}"
     if isinstance(x, str):
         return "S" + x
     if isinstance(x, list):
@@ -476,7 +478,7 @@ def _worker(shard):
             for lo in range(0, len(docs), 50):
                 sel = " union all ".join(f"select {lo + i}, parse_json({sql_str(dumps(d))})" for i, d in enumerate(docs[lo:lo + 50]))
                 cur.execute(f"insert into {name} {sel}")
-        for t in tasks:
+        for i, t in enumerate(tasks):
             kind = t[0]
             if kind == "tbl":
                 _, table, expr, n = t
@@ -517,6 +519,34 @@ def _worker(shard):
                 except common.Infra:
                     raise
                 out.append(res)
+            elif kind == "route":
+                # the document reaches PARSE_JSON by a route other than a literal: session variable, pyformat / named pyformat / qmark parameter
+                _, route, text, template = t
+                try:
+                    if route == "variable":
+                        cur.execute(f"set doc_{i} = {sql_str(text)}")
+                        cur.execute("select " + template.replace("{v}", f"parse_json($doc_{i})"))
+                        rows = cur.fetchall()
+                    elif route == "pyformat":
+                        n = template.count("{v}")
+                        cur.execute("select " + template.replace("%", "%%").replace("{v}", "parse_json(%s)"), (text,) * n)
+                        rows = cur.fetchall()
+                    elif route == "pyformat-named":
+                        cur.execute("select " + template.replace("%", "%%").replace("{v}", "parse_json(%(doc)s)"), {"doc": text})
+                        rows = cur.fetchall()
+                    else:
+                        import snowflake.connector as sc
+                        sc.paramstyle = "qmark"
+                        try:
+                            qc = sc.connect(database="db1", schema="s1").cursor()
+                        finally:
+                            sc.paramstyle = "pyformat"
+                        n = template.count("{v}")
+                        qc.execute("select " + template.replace("{v}", "parse_json(?)"), (text,) * n)
+                        rows = qc.fetchall()
+                    out.append(obs_cell(rows[0][0]) if len(rows) == 1 and len(rows[0]) == 1 else f"X:shape {rows!r}"[:200])
+                except Exception as e:
+                    out.append(obs_exc(e))
             elif kind == "qmark":
                 try:
                     import snowflake.connector as sc
@@ -743,6 +773,41 @@ def build(chk):
             sql = "select " + e.replace("{v}", "parse_json($$" + dumps(d) + "$$)")
             tasks.append(("one", sql))
             meta.append({"kind": "lit", "sql": sql, "doc": d, "E": enc_list(toks), "tag": "literal-dollar:apostrophes"})
+    route_docs = [{"a": 'x"y', "b": "it's", "c": "a\\b", "d": [1, ' q"u ', "t\\\"x"], "S": "plain"}, {"a": {"b": 'say "hi"'}, "b": "back\\slash"}, ["q\"1", "b\\2", "it's"],
+                  {"a": "plain", "b": "no escapes", "d": [7, "x"]}]
+    route_exprs = ["{v}:a", "{v}:a::varchar", "{v}:b::varchar", "{v}:c", "{v}:c::varchar", "{v}:d[1]::varchar", "{v}:d[2]", "upper({v}:a)", "{v}", "{v}:a.b::varchar", "{v}[0]::varchar", "{v}[1]",
+                   "array_size({v}:d)", "{v}:a::varchar || {v}:b::varchar", "trim({v}:b)"]
+    for d in route_docs:
+        text = dumps(d)
+        for route in ("variable", "pyformat", "pyformat-named", "qmark"):
+            for e in (route_exprs if not quick else rnd.sample(route_exprs, 7) + ["{v}:a::varchar"]):
+                if route == "qmark" and "array_size" in e:
+                    continue    # the ARRAY_SIZE rewrite duplicates its operand, hence the placeholder (a C08 finding)
+                try:
+                    toks = parse_expr(e)
+                except Exception:
+                    continue
+                tasks.append(("route", route, text, e))
+                meta.append({"kind": "lit", "sql": f"[{route}] select " + e.replace("{v}", "parse_json(<doc>)") + f"  with <doc> = {text}", "doc": d, "E": enc_list(toks),
+                             "tag": "route:" + route, "route": route, "template": e, "text": text})
+    # casts of extracted numbers to FLOAT / DOUBLE (Snowflake: all 64-bit) with values that are inexact in 32 bits
+    fdoc = {"x": 0.1, "y": 1.1, "z": 16777217, "w": 3.14159, "n": -0.0025, "big": 123456789.125, "i": 3}
+    fl_text = dumps(fdoc)
+    for key, val in fdoc.items():
+        for ty in ("float", "double", "real", "float8", "double precision", "float4"):
+            for acc in (f"{{v}}:{key}", f"get_path({{v}}, '{key}')", f"{{v}}['{key}']"):
+                for form, want in ((f"{acc}::{ty}", f"F{float(val)!r}"), (f"cast({acc} as {ty})", f"F{float(val)!r}"), (f"{acc}::{ty} = {val!r}", "B1"), (f"{acc}::{ty} + 1", f"F{float(val) + 1!r}")):
+                    if quick and rnd.random() < 0.75:
+                        continue
+                    sql = "select " + form.replace("{v}", f"parse_json({sql_str(fl_text)})")
+                    tasks.append(("one", sql))
+                    meta.append({"kind": "fixed_one", "sql": sql, "want": want, "tag": "float-cast"})
+    for form, want in [("{v}:x::float", "F0.1"), ("{v}:y::double", "F1.1"), ("{v}:x::float = 0.1", "B1"), ("{v}:z::float", "F16777217.0")]:
+        sql = "select " + form.replace("{v}", f"parse_json({sql_str(fl_text)})")
+        tasks.append(("one", sql))
+        meta.append({"kind": "fixed_one", "sql": sql, "want": want, "tag": "float-cast"})
+        tasks.append(("route", "variable", fl_text, form))
+        meta.append({"kind": "fixed_one", "sql": f"[variable] select {form} with <doc> = {fl_text}", "want": want, "tag": "float-cast:variable", "route": "variable", "template": form, "text": fl_text})
     small = build_small(chk, rnd, tasks, meta)
     return tables, tasks, meta, small
 
@@ -994,6 +1059,8 @@ def judge(chk, tables, meta, reals, replies, index):
         elif kind == "lit":
             (_, rep), = by_meta[mi]
             case = {"kind": "eval", "sql": m["sql"], "doc": m["doc"], "E": m["E"], "mode": "literal"}
+            if m.get("route"):
+                case.update(mode="route", route=m["route"], template=m["template"], text=m["text"])
             v = verdict(chk, rep, real, case, f"`{m['sql']}`", "C11_partial/C11_nav (literal operand)")
             if v != "skip":
                 chk.case((m["sql"],), nontrivial=rep.get("spec", "N") != "N")
@@ -1042,7 +1109,10 @@ def judge(chk, tables, meta, reals, replies, index):
             chk.case((m["sql"],), nontrivial=True)
             chk.count(m["tag"])
             if real != m["want"]:
-                chk.violation(f"`{m['sql']}` returned {real!r}, required {m['want']}", {"kind": "fixed_one", "sql": m["sql"], "want": m["want"]}, broken="C11_split (expression arguments)")
+                c_ = {"kind": "fixed_one", "sql": m["sql"], "want": m["want"]}
+                if m.get("route"):
+                    c_.update(route=m["route"], template=m["template"], text=m["text"])
+                chk.violation(f"`{m['sql']}` returned {real!r}, required {m['want']}", c_, broken=f"C11 correspondence ({m['tag']})")
         elif kind == "parse_bad":
             chk.case((m["sql"],), nontrivial=False)
             chk.count(m["tag"])
@@ -1163,6 +1233,9 @@ def replay(chk, case) -> None:
             tables = {"tg": [case["doc"]]}
             real = _worker((tables, [("tbl", "tg", case["sql"], 1)]))[0][0]
             what = f"`select {case['sql'].replace('{v}', 'v')}` with v = {dumps(case['doc'])}"
+        elif case["mode"] == "route":
+            real = _worker(({}, [("route", case["route"], case["text"], case["template"])]))[0]
+            what = f"`{case['sql']}`"
         else:
             real = _worker(({}, [("one", case["sql"])]))[0]
             what = f"`{case['sql']}`"
@@ -1186,7 +1259,7 @@ def replay(chk, case) -> None:
         if not (real.startswith("S") and _json_eq(real[1:], pieces)):
             chk.violation(f"`{case['sql']}` returned {real!r}, Python's split gives {pieces}", case, broken="C11_split")
     elif kind == "fixed_one":
-        real = _worker(({}, [("one", case["sql"])]))[0]
+        real = _worker(({}, [("route", case["route"], case["text"], case["template"]) if case.get("route") else ("one", case["sql"])]))[0]
         if real != case["want"]:
             chk.violation(f"`{case['sql']}` returned {real!r}, required {case['want']}", case, broken="C11_split (expression arguments)")
     elif kind in ("parse", "parse_bad"):
